@@ -5,6 +5,7 @@ from absval import (Arr, BOT, Bot, Closure, Enum, FnItem, Int, Iter, Ref, Struct
 from absint import (Infeasible, State, get_at, set_at, int_leaves, join_states, state_leq)
 from interp import Interp, Frame, MAX_DEPTH, WIDEN_AFTER, PART_CAP, STEP_CAP
 from lin import LinForm
+import heapq
 import mirlib
 
 PANIC_FNS = (
@@ -12,6 +13,34 @@ PANIC_FNS = (
     "core::option::unwrap_failed", "core::option::expect_failed", "core::slice::index::slice_",
     "std::process::abort", "core::panicking::panic",
 )
+
+
+class _Worklist:
+    """priority worklist keyed by reverse postorder of the block; FIFO among equals"""
+
+    def __init__(self, rpo):
+        self.rpo = rpo
+        self.heap = []
+        self.members = set()
+        self.seq = 0
+
+    def append(self, key):
+        if key in self.members:
+            return
+        self.members.add(key)
+        self.seq += 1
+        heapq.heappush(self.heap, (self.rpo.get(key[0], 1 << 30), self.seq, key))
+
+    def popleft(self):
+        _, _, key = heapq.heappop(self.heap)
+        self.members.discard(key)
+        return key
+
+    def __contains__(self, key):
+        return key in self.members
+
+    def __bool__(self):
+        return bool(self.heap)
 
 
 class Call:
@@ -675,6 +704,31 @@ class Engine(Interp):
                     key.append((l, p, leaf.lo))
         return tuple(key)
 
+    def rpo_index(self, body):
+        """reverse-postorder number of every block: the worklist takes the smallest first, so a loop is iterated to stability before the code
+        after it is (re)analysed"""
+        r = self._rpo.get(body.key)
+        if r is None:
+            seen, order = set(), []
+            stack = [(0, iter(body.successors(0)))]
+            seen.add(0)
+            while stack:
+                b, itr = stack[-1]
+                adv = False
+                for n in itr:
+                    if n not in seen:
+                        seen.add(n)
+                        stack.append((n, iter(body.successors(n))))
+                        adv = True
+                        break
+                if not adv:
+                    order.append(b)
+                    stack.pop()
+            order.reverse()
+            r = {b: i for i, b in enumerate(order)}
+            self._rpo[body.key] = r
+        return r
+
     def run_body(self, frame, st_in, keep_frame=False, in_place=False):
         """fixpoint over one body from entry state; returns list of exit states (one per tag).
         For promoted bodies (`in_place`), the value of _0 is returned instead."""
@@ -684,7 +738,7 @@ class Engine(Interp):
         thresholds = self.thresholds(body)
         in_states = {}
         visits = defaultdict(int)
-        work = deque()
+        work = _Worklist(self.rpo_index(body))
         exits = {}
         base_tag = st_in.tag
 
